@@ -53,10 +53,16 @@ func (f *Ash) Call(s *slip.Scope, args slip.List, depth int) (result slip.Object
 	sh := int(shift)
 	switch ti := args[0].(type) {
 	case slip.Fixnum:
-		if sh < 0 {
-			result = slip.Fixnum(uint64(ti) >> -sh)
-		} else {
-			result = slip.Fixnum(uint64(ti) << sh)
+		switch {
+		case sh < 0:
+			// An arithmetic shift, the sign is kept.
+			result = ti >> -max(sh, -63)
+		case ti == 0 || (sh < 63 && (ti<<sh)>>sh == ti):
+			result = ti << sh
+		default:
+			// The shifted integer is not a fixnum.
+			var bi big.Int
+			result = (*slip.Bignum)(bi.Lsh(big.NewInt(int64(ti)), uint(sh)))
 		}
 	case slip.Octet:
 		if sh < 0 {
